@@ -262,6 +262,12 @@ def K6():
     return witnesses_c18.K6()
 
 
+def K12():
+    """C18: TeX ligatures -- `` '' !` ?` and the characters " ^ (and ten accented Latin letters) do not survive encode -> decode"""
+    import witnesses_c18
+    return witnesses_c18.K12()
+
+
 def K7():
     """C05: explicit comment ending in backslash + whitespace does not round-trip"""
     bp = _bp()
@@ -349,7 +355,7 @@ def F17():
     return not shared, "output metadata list is the input's / the middleware's own list: %r" % shared
 
 
-ALL = [F1, F2, F3, F4, F5, F6, F7, F8, F9, F10, F11, F12, F13, F14, F15, F16, F17, F18, K1, K2, K3, K4, K5, K6, K7, K8, K9, K10, K11]
+ALL = [F1, F2, F3, F4, F5, F6, F7, F8, F9, F10, F11, F12, F13, F14, F15, F16, F17, F18, K1, K2, K3, K4, K5, K6, K7, K8, K9, K10, K11, K12]
 
 if __name__ == "__main__":
     import bibtexparser
